@@ -161,12 +161,17 @@ func parseArEntry(line []byte) (*ArEntry, error) {
 		FileMode: strings.TrimSpace(string(line[40:48])),
 	}
 
-	for target, value := range map[entryField][]byte{
-		entryField{"Timestamp", &entry.Timestamp}: line[16:28],
-		entryField{"OwnerID", &entry.OwnerID}:     line[28:34],
-		entryField{"GroupID", &entry.GroupID}:     line[34:40],
-		entryField{"Size", &entry.Size}:           line[48:58],
+	/* in header order, so that the same bytes always give the same error */
+	for _, column := range []struct {
+		target entryField
+		value  []byte
+	}{
+		{entryField{"Timestamp", &entry.Timestamp}, line[16:28]},
+		{entryField{"OwnerID", &entry.OwnerID}, line[28:34]},
+		{entryField{"GroupID", &entry.GroupID}, line[34:40]},
+		{entryField{"Size", &entry.Size}, line[48:58]},
 	} {
+		target, value := column.target, column.value
 		input := strings.TrimSpace(string(value))
 		if input == "" {
 			continue
